@@ -140,24 +140,28 @@ func (ctx *Context) TransactionRATWrite(exe Execution, sequenceID int32) {
 	// Results are written in completion order, which is not program order: an
 	// older instruction (a cache-missing load) can complete after a younger
 	// writer of the same register. The younger writes have to remain the most
-	// recent ones, so they are written again on top of the older one.
+	// recent ones.
 	// ... and an older instruction can even complete after a younger writer of
 	// the register was committed (a branch resolved in between): its result is
 	// dead, the committed value is the more recent one.
 	if sequenceID < ctx.committedSequenceID[exe.Register] {
 		return
 	}
-	var younger []transactionUnit
-	for _, tu := range ctx.transactionRAT.Recent(exe.Register) {
-		if tu.sequenceID <= sequenceID {
-			break
-		}
-		younger = append(younger, tu)
+	recent := ctx.transactionRAT.Recent(exe.Register)
+	younger := 0
+	for younger < len(recent) && recent[younger].sequenceID > sequenceID {
+		younger++
 	}
-	ctx.transactionRAT.Write(exe.Register, transactionUnit{sequenceID, exe.RegisterValue})
-	for i := len(younger) - 1; i >= 0; i-- {
-		ctx.transactionRAT.Write(exe.Register, younger[i])
+	if younger == 0 {
+		ctx.transactionRAT.Write(exe.Register, transactionUnit{sequenceID, exe.RegisterValue})
+		return
 	}
+	// The new write takes its place in program order, below the younger ones
+	values := make([]transactionUnit, 0, len(recent)+1)
+	values = append(values, recent[:younger]...)
+	values = append(values, transactionUnit{sequenceID, exe.RegisterValue})
+	values = append(values, recent[younger:]...)
+	ctx.transactionRAT.Rewrite(exe.Register, values)
 }
 
 func (ctx *Context) RATCommit() {
